@@ -99,6 +99,12 @@ func replayMapCase(f func(m *mapper, dir string, a uint32) []mapFinding) func(js
 		if c.HasPrev || c.PrevMapper != "" {
 			return mapHistoryProbe(c)
 		}
+		if c.Mapper == "sentinel" {
+			if fs := c05SentinelProbe(); len(fs) > 0 {
+				return fs[0].what, fmt.Errorf("%s", fs[0].sig)
+			}
+			return "every mapper reports the error the variable holds", nil
+		}
 		m := mapperByName(c.Mapper)
 		if m == nil {
 			return "", fmt.Errorf("unknown mapper %q", c.Mapper)
@@ -341,7 +347,37 @@ func c05CheckAddr(m *mapper, dir string, a uint32) (out []mapFinding) {
 	return
 }
 
+// c05SentinelProbe: util.ErrUnmappedAddress is an exported variable; "the unmapped-address error" is whatever
+// it holds when the mapper is called. With the sentinel replaced, every mapper must report the replacement.
+// (Run before the parallel sweeps: the variable is process-wide.)
+func c05SentinelProbe() []mapFinding {
+	var out []mapFinding
+	orig := util.ErrUnmappedAddress
+	mine := fmt.Errorf("replaced unmapped-address error")
+	util.ErrUnmappedAddress = mine
+	defer func() { util.ErrUnmappedAddress = orig }()
+	for mi := range mappers {
+		m := &mappers[mi]
+		for _, a := range []uint32{0x002000, 0x005FFF, 0x802100, 0xBF4200} {
+			if p, err, _ := callMap(m.BusToPak, a); err != nil && (err != mine || p != 0) {
+				out = append(out, mapFinding{"unexplained:stale-unmapped-error:" + m.Name, fmt.Sprintf("with util.ErrUnmappedAddress replaced, %s.BusAddressToPak($%06x) = ($%06x, %v): not the error the variable holds now", m.Name, a, p, err)})
+				break
+			}
+		}
+		for _, a := range []uint32{0xF00000, 0xF4FFFF} {
+			if b, err, _ := callMap(m.PakToBus, a); err != nil && (err != mine || b != 0) {
+				out = append(out, mapFinding{"unexplained:stale-unmapped-error:" + m.Name, fmt.Sprintf("with util.ErrUnmappedAddress replaced, %s.PakAddressToBus($%06x) = ($%06x, %v): not the error the variable holds now", m.Name, a, b, err)})
+				break
+			}
+		}
+	}
+	return out
+}
+
 func runC05(r *report.Run) {
+	for _, f := range c05SentinelProbe() {
+		r.Violation(f.sig, f.what, mapCase{Mapper: "sentinel", Dir: "bus", Addr: 0x002000})
+	}
 	for mi := range mappers {
 		if err := mappers[mi].Table.Validate(); err != nil {
 			fmt.Println("region table self-check failed:", err)
